@@ -729,6 +729,14 @@ def step (s : St) (line : String) : St × List String :=
             -- new state, version returned, and the format the producer had chosen BEFORE the call
             | some (.ok (st', v)) => ["ok " ++ (V.list [vOfState st', .int v, .int (producerMagic p.1)]).render])
           (do let st ← stateOfV st; let atts ← attempts.mapM attemptOfV; some (st, atts)))
+      -- the public fetch_api_versions() in any state: [new state, error_code returned, api_versions returned]
+      | "fetch-api-versions", [st, .list attempts] =>
+        (s, optRes (fun (p : ApiVersionsState × List Attempt) =>
+            match fetchApiVersionsCall p.1 p.2 with
+            | none => ["pending"]
+            | some (.error e) => ["error " ++ e.name]
+            | some (.ok (st', err, vs)) => ["ok " ++ (V.list [vOfState st', .int err, vOfState (.table vs)]).render])
+          (do let st ← stateOfV st; let atts ← attempts.mapM attemptOfV; some (st, atts)))
       -- the glue of send_produce_request / send_fetch_request: [new state, version to the encoder,
       -- version to the decoder (n = no decoder), version the request header will carry]
       | "glue-produce", [st, .list attempts, .int acks] =>
